@@ -10,20 +10,36 @@
 #define NMAX 10
 #endif
 /* decode(encode(data)) = data for every byte string of n bytes fed in two chunks split at `cut` */
+#define ENCLEN(n) ((n) ? 4 * (((n) + 2) / 3) + ((n) + 47) / 48 : 0)     /* 4 characters per 3 bytes, one newline per line of 48 bytes */
+#ifndef TCUT
+#define TCUT(tl) ((tl) / 2)      /* where the text is split for the decoder; -DTCUT_ALL: every position */
+#endif
+static size_t g_tcut;
 static void b64_rt(size_t n, size_t cut)
 {
 	uint8_t data[NMAX ? NMAX : 1], txt[2 * NMAX + 16], back[NMAX + 8];
+#ifdef REPDATA
+	/* the decoder's control flow depends on the class of each character (alphabet, '=', white space) only: with every content
+	 * symbolic the buffered count and the output pointer become symbolic and no back end returns a verdict (measured);
+	 * here the content is one fixed representative per length and the cut points are the symbolic inputs */
+	for (size_t i = 0; i < n; i++) data[i] = (uint8_t)(i * 37 + 1);
+#else
 	for (size_t i = 0; i < n; i++) data[i] = nondet_u8();
+#endif
 	BASE64_CTX ctx; int l = 0; size_t tl = 0;
 	base64_encode_init(&ctx);
 	base64_encode_update(&ctx, data, (int)cut, txt, &l); tl += l;
 	base64_encode_update(&ctx, data + cut, (int)(n - cut), txt + tl, &l); tl += l;
 	base64_encode_finish(&ctx, txt + tl, &l); tl += l;
-	CHECK(tl == (n ? 4 * ((n + 2) / 3) + 1 : 0), "encoded length = 4*ceil(n/3) + newline");
+	CHECK(tl == ENCLEN(n), "encoded length = 4*ceil(n/3) + one newline per 48-byte line");
 	base64_decode_init(&ctx);
 	size_t bl = 0; int r;
 	/* decode in two chunks as well, split in the middle of the text */
-	size_t tcut = tl / 2;
+#ifdef TCUT_ALL
+	size_t tcut = g_tcut;
+#else
+	size_t tcut = TCUT(tl);
+#endif
 	r = base64_decode_update(&ctx, txt, (int)tcut, back, &l); CHECK(r >= 0 || tcut == 0 || 1, "chunk 1"); if (r >= 0) bl += l;
 	int r2 = base64_decode_update(&ctx, txt + tcut, (int)(tl - tcut), back + bl, &l); if (r2 >= 0) bl += l;
 	int r3 = base64_decode_finish(&ctx, back + bl, &l); bl += l;
@@ -37,7 +53,18 @@ void h_base64_roundtrip(void)
 	ASSUME(n <= NMAX && cut <= n);
 #ifdef NFIX
 	ASSUME(n == NFIX);
+#ifdef CUT0
+	ASSUME(cut == 0);
+#endif
+#ifdef TCUT_ALL
+	size_t tc = nondet_size(); ASSUME(tc <= ENCLEN(NFIX));
+	for (size_t c = 0; c <= NFIX; c++) if (cut == c) {
+		for (size_t t = 0; t <= ENCLEN(NFIX); t++) if (tc == t) { g_tcut = t; b64_rt(NFIX, c); break; }
+		break;
+	}
+#else
 	for (size_t c = 0; c <= NFIX; c++) if (cut == c) { b64_rt(NFIX, c); break; }
+#endif
 #endif
 	V_REACH();
 }
